@@ -3,6 +3,7 @@ package agwpe
 import (
 	"bytes"
 )
+
 // C13 K7a: a header announcing any of the 2^32 data lengths, followed by a few
 // bytes and EOF: no panic, no allocation out of proportion
 func H_c13_frame_malformed() {
@@ -19,4 +20,3 @@ func H_c13_frame_malformed() {
 	}
 	symReach("end")
 }
-
